@@ -500,12 +500,15 @@ def run(ctx):
     ctx.log("translated; building proof cone")
     ok = ctx.prove("C30/Props.v")
     ctx.log("Props.v:", "ok" if ok else "BROKEN")
+    if ok and ctx.tier == "thorough":
+        ctx.coqchk("PL.C30.Props")
+        ctx.log("coqchk done")
     if not ok:
         return
     with open(os.path.join(vf.THEORIES, "C30", "Findings.v")) as f:
         rc, out = ctx.coq_run(f.read(), "Findings")
     ctx.cov["findings_witness_partial_group"] = "checks on the generated model" if rc == 0 else "no longer checks"
     ctx.log("update_weights tie")
-    tie_update_weights(ctx, ctx.n(300, 8000))
+    tie_update_weights(ctx, ctx.n(300, 5000))
     ctx.log("programs")
-    run_programs(ctx, ctx.n(250, 12000))
+    run_programs(ctx, ctx.n(250, 5000))
